@@ -602,10 +602,7 @@ def b_getattr(I, args, kw):
     if isinstance(name, SV):
         c = const_of(name.t)
         if c is None:
-            h = I.E.externals.get("getattr_symbolic")
-            if h is not None:
-                return h(I, obj, name, args[2:])
-            raise Unsupported("getattr with symbolic name")
+            return getattr_symbolic(I, obj, name, args[2:])
         name = c[0]
     if len(args) == 2:
         return I.getattr(obj, name)
@@ -615,6 +612,24 @@ def b_getattr(I, args, kw):
         if I.isa_term(pr.exc, ExternalRef("AttributeError")) is True:
             return args[2]
         raise
+
+
+def getattr_symbolic(I, obj, name, default):
+    """getattr(obj, name) with a symbolic attribute name on an abstract collaborator: the value is selected among
+    the declared numeric fields without forking (If-chain); any other name is an AttributeError"""
+    ctx = I.ctx
+    obj = ctx.from_val(obj) if isinstance(obj, SV) else obj
+    if not (isinstance(obj, SV) and isinstance(obj.ty, TAbs)) or default:
+        raise Unsupported("getattr with symbolic name on %r" % (obj,))
+    cands = [(f, t) for f, t in obj.ty.fields.items() if isinstance(t, TNum)]
+    ns = Z.Val.s(name.t)
+    if not ctx.branch(z3.Or(*[ns == z3.StringVal(f) for f, _ in cands]), "getattr-name-known"):
+        raise PyRaise(I.make_exception(ExternalRef("AttributeError"), ["no such attribute"]))
+    vals = [(f, ctx.typed(ctx.load_raw(ctx.ref_id(obj), f), t)) for f, t in cands]
+    term = vals[-1][1].t
+    for f, v in reversed(vals[:-1]):
+        term = z3.If(ns == z3.StringVal(f), v.t, term)
+    return SV(term, TNum(inf=any(t.inf for _, t in cands)))
 
 
 def b_type(I, args, kw):
